@@ -1439,93 +1439,140 @@ func c16CapWired(c *Ctx, recompute *ssa.Function, wiring map[string]bool) {
 	}
 	// allocation sites: calls of library functions returning L whose result is a fresh object
 	n := 0
-	for _, fn := range c.P.LibFns {
-		ir.EachInstr(fn, func(_ *ssa.BasicBlock, _ int, in ssa.Instruction) {
-			call, ok := in.(*ssa.Call)
-			if !ok {
-				return
-			}
-			sc := ir.StaticCallee(call)
-			if sc == nil || !c.P.IsLib(sc) || sc.Signature.Recv() != nil || sc.Signature.Results().Len() != 1 || !types.Identical(sc.Signature.Results().At(0).Type(), L) {
-				return
-			}
-			if _, isSetter := setters[sc]; isSetter {
-				return
-			}
-			// what happens to the created value (and to values chained from it through setters)
-			set := map[string]bool{}
-			vals := map[ssa.Value]bool{call: true}
-			work := []ssa.Value{call}
-			for len(work) > 0 {
-				v := work[0]
-				work = work[1:]
-				if v.Referrers() == nil {
-					continue
+	// a function that returns the object it created hands the obligation to its callers (buildLifecycleManager())
+	factories := map[*ssa.Function]bool{}
+	factoryDone := map[*ssa.Call]bool{}
+	for round := 0; round < 3; round++ {
+		for _, fn := range c.P.LibFns {
+			ir.EachInstr(fn, func(_ *ssa.BasicBlock, _ int, in ssa.Instruction) {
+				call, ok := in.(*ssa.Call)
+				if !ok {
+					return
 				}
-				for _, r := range *v.Referrers() {
-					switch y := r.(type) {
-					case *ssa.Phi:
-						if !vals[y] {
-							vals[y] = true
-							work = append(work, y)
-						}
+				sc := ir.StaticCallee(call)
+				if sc == nil || !c.P.IsLib(sc) || sc.Signature.Results().Len() != 1 || !types.Identical(sc.Signature.Results().At(0).Type(), L) {
+					return
+				}
+				if round == 0 && sc.Signature.Recv() != nil {
+					return
+				}
+				if round > 0 && !factories[sc] {
+					return
+				}
+				if round > 0 && factoryDone[call] {
+					return
+				}
+				if round > 0 {
+					factoryDone[call] = true
+				}
+				if _, isSetter := setters[sc]; isSetter {
+					return
+				}
+				// what happens to the created value (and to values chained from it through setters)
+				set := map[string]bool{}
+				returned := false
+				vals := map[ssa.Value]bool{call: true}
+				work := []ssa.Value{call}
+				owner := map[ssa.Value]*ssa.Function{call: fn} // the function a tracked value lives in
+				for len(work) > 0 {
+					v := work[0]
+					work = work[1:]
+					if v.Referrers() == nil {
 						continue
-					case *ssa.Store:
-						// kept in a member of an object this function also wires
-						if y.Val == v {
-							if _, _, ok := ir.FieldOf(y.Addr); ok {
-								for f := range wiresHeld[fn] {
-									set[f] = true
+					}
+					fn := owner[v]
+					if fn == nil {
+						fn = call.Parent()
+					}
+					for _, r := range *v.Referrers() {
+						switch y := r.(type) {
+						case *ssa.Phi:
+							if !vals[y] {
+								vals[y] = true
+								owner[y] = fn
+								work = append(work, y)
+							}
+							continue
+						case *ssa.Store:
+							// kept in a member of an object this function also wires
+							if y.Val == v {
+								if _, _, ok := ir.FieldOf(y.Addr); ok {
+									for f := range wiresHeld[fn] {
+										set[f] = true
+									}
+								}
+							}
+							continue
+						case *ssa.Return:
+							if fn == call.Parent() { // (a builder method returning its receiver is not a hand-over)
+								returned = true
+							}
+							continue
+						}
+						rc, ok := r.(*ssa.Call)
+						if !ok {
+							continue
+						}
+						rsc := ir.StaticCallee(rc)
+						// any other method of the object that returns the object (builder chain)
+						if rsc != nil && c.P.IsLib(rsc) && len(rc.Call.Args) > 0 && rc.Call.Args[0] == v && rsc.Signature.Results().Len() == 1 && types.Identical(rsc.Signature.Results().At(0).Type(), L) {
+							if !vals[rc] {
+								vals[rc] = true
+								owner[rc] = fn
+								work = append(work, rc)
+							}
+						}
+						if f, ok := setters[rsc]; ok && len(rc.Call.Args) > 0 && rc.Call.Args[0] == v {
+							set[f] = true
+							if !vals[rc] {
+								vals[rc] = true
+								owner[rc] = fn
+								work = append(work, rc)
+							}
+							continue
+						}
+						// handed on to a library function as an argument: followed into that function
+						if rsc != nil && c.P.IsLib(rsc) && rsc.Blocks != nil && len(owner) < 12 {
+							for ai, a := range rc.Call.Args {
+								if a == v && ai < len(rsc.Params) && !vals[rsc.Params[ai]] {
+									vals[rsc.Params[ai]] = true
+									owner[rsc.Params[ai]] = rsc
+									work = append(work, rsc.Params[ai])
 								}
 							}
 						}
-						continue
-					}
-					rc, ok := r.(*ssa.Call)
-					if !ok {
-						continue
-					}
-					rsc := ir.StaticCallee(rc)
-					// any other method of the object that returns the object (builder chain)
-					if rsc != nil && c.P.IsLib(rsc) && len(rc.Call.Args) > 0 && rc.Call.Args[0] == v && rsc.Signature.Results().Len() == 1 && types.Identical(rsc.Signature.Results().At(0).Type(), L) {
-						if !vals[rc] {
-							vals[rc] = true
-							work = append(work, rc)
-						}
-					}
-					if f, ok := setters[rsc]; ok && len(rc.Call.Args) > 0 && rc.Call.Args[0] == v {
-						set[f] = true
-						if !vals[rc] {
-							vals[rc] = true
-							work = append(work, rc)
-						}
-						continue
-					}
-					// handed to an option constructor whose closure ends up in a constructor that wires what it holds
-					if rsc != nil && c.P.IsLib(rsc) {
-						for _, rr := range derefs(rc) {
-							if kc, ok := rr.(*ssa.Call); ok {
-								if k := ir.StaticCallee(kc); k != nil {
-									for f := range wiresHeld[k] {
-										set[f] = true
+						// handed to an option constructor whose closure ends up in a constructor that wires what it holds
+						if rsc != nil && c.P.IsLib(rsc) {
+							for _, rr := range derefs(rc) {
+								if kc, ok := rr.(*ssa.Call); ok {
+									if k := ir.StaticCallee(kc); k != nil {
+										for f := range wiresHeld[k] {
+											set[f] = true
+										}
 									}
 								}
 							}
 						}
 					}
 				}
-			}
-			var fields []string
-			for f := range wiring {
-				fields = append(fields, f)
-			}
-			sort.Strings(fields)
-			for _, f := range fields {
-				n++
-				c.R.Check(set[f], "R-cap-wired", f+" of the object created in "+fname(fn), c.Pos(call.Pos()), "set by a setter on the created object or by the dispatcher constructor it is handed to",
-					sprintf("%s creates the object that computes the advertised capabilities but %s is never set on it (neither here nor, unconditionally, by the constructor it is handed to): the corresponding capability is silently never advertised", fname(fn), f))
-			}
-		})
+				if returned && len(set) < len(wiring) {
+					if !factories[fn] {
+						factories[fn] = true
+					}
+					return // judged where fn is called
+				}
+				var fields []string
+				for f := range wiring {
+					fields = append(fields, f)
+				}
+				sort.Strings(fields)
+				for _, f := range fields {
+					n++
+					c.R.Check(set[f], "R-cap-wired", f+" of the object created in "+fname(fn), c.Pos(call.Pos()), "set by a setter on the created object or by the dispatcher constructor it is handed to",
+						sprintf("%s creates the object that computes the advertised capabilities but %s is never set on it (neither here nor, unconditionally, by the constructor it is handed to): the corresponding capability is silently never advertised", fname(fn), f))
+				}
+			})
+		}
 	}
 	c.R.Min("R-cap-wired", 4)
 	_ = n
